@@ -251,8 +251,10 @@ impl<I, P, H> Store<I, P, H> {
     pub fn clear(&mut self) {
         self.heap.clear();
         self.qp.clear();
-        self.map.clear();
+        // reset `size` before the elements are dropped: if a `Drop` panics
+        // the store is left empty and consistent
         self.size = 0;
+        self.map.clear();
     }
 
     /// Swap two elements keeping a consistent state.
